@@ -290,9 +290,10 @@ structure RawDoc where
 /-- Validity as documented by the schema. -/
 def RawDoc.documentedValid (r : RawDoc) : Bool := r.doc.valid && !r.extraKeys
 
-/-- Both decoders decode into the typed `OperationSpec` (no `DisallowUnknownFields` /
-`KnownFields`): unknown keys are dropped before the validator sees the document. -/
-def decodeRaw (r : RawDoc) : Doc := r.doc
+/-- The unrepaired decoders decoded straight into the typed `OperationSpec` (no
+`DisallowUnknownFields` / `KnownFields`): unknown keys were dropped before the validator saw the
+document (regression witness in `Props/C13`). -/
+def decodeRawUnrepaired (r : RawDoc) : Doc := r.doc
 
 /-- The number representation a decoder leaves in an inline value. `normalise` is the repair
 (`helpers.go`: the YAML-decoded values are passed through JSON). -/
@@ -321,6 +322,11 @@ inductive Stream
   | garbled                   -- both decoders returned an error: `nil, err`
   | docs (ds : List Doc)
   deriving DecidableEq, Repr
+
+/-- The repaired decoders (`helpers.go`: `checkKnownField`) return an error for a document carrying
+a key the schema does not list — for the whole stream, like any other decoding error. -/
+def Stream.ofRaw (rs : List RawDoc) : Stream :=
+  if rs.any (·.extraKeys) then .garbled else .docs (rs.map (·.doc))
 
 def parse (normalise : Bool) (f : Form) : Stream → List Op × Bool
   | .garbled => ([], true)
